@@ -28,6 +28,15 @@ def check(prop, tier, seed):
         if r['alpn'] == 'h2' and r['client_auth'] == 'none' and r['identity'] == 'none' and not r['assume_http2'] and r['tls_cfg']:
             for o in ('good_before', 'good_after', 'bad_before', 'bad_after'):
                 extra.append(dict(r, origin=o, **{'class': 'origin_override'}))
+    # a trusted certificate handed over as part of a PEM bundle (several certificates in one PEM) is as good as alone
+    for r in rows:
+        if r['alpn'] == 'h2' and not r['assume_http2'] and r['tls_cfg'] and r['name'] in ('match', 'mismatch'):
+            if r['client_auth'] == 'none' and r['identity'] == 'none' and r['roots'] in ('right', 'other'):
+                for f in ('bundle_first', 'bundle_last'):
+                    extra.append(dict(r, roots_form=f, **{'class': 'pem_bundle_roots'}))
+            if r['client_auth'] != 'none' and r['roots'] == 'right' and r['name'] == 'match':
+                for f in ('bundle_first', 'bundle_last'):
+                    extra.append(dict(r, client_ca_form=f, **{'class': 'pem_bundle_client_ca'}))
     rows = rows + extra
     ev, path = simple.run_lab('tls', rows, tag, 'table', timeout=3000)
     simple.validate(prop, 'Trace_Tls', verdict, ev, path, 'table', cov, clause_filter=lambda c: c.startswith('C15.') or c in ('NoPanic', 'NoHang'))
